@@ -1,0 +1,13 @@
+// SPDX-FileCopyrightText: 2026 The Pion community <https://pion.ly>
+// SPDX-License-Identifier: MIT
+
+//go:build verif
+
+// Contracts (comment-only) used by property C02.
+
+package stun
+
+//@ func AssertUsername
+//@   props C02
+//@   pure
+//@   ensures accepts-iff-equal: (result == nil) == (usernamePresent(m) && msgUsername(m) == expectedUsername)
